@@ -55,10 +55,19 @@ def body(chk):
   rnd = random.Random(chk.seed)
   per = 3 if chk.tier == 'quick' else 25
   traces, meta = [], []
+  from harness import qcheck
+  runs = []
   for sc in scenarios(chk.tier):
     for j in range(per):
-      seed = chk.seed * 1000003 + len(traces)
-      o = prefetch.run_scenario(sc, sched.Random(random.Random(seed), stickiness=rnd.choice([0.0, 0.4, 0.8])))
+      seed = chk.seed * 1000003 + len(runs)
+      runs.append((sc, seed, prefetch.run_scenario(sc, sched.Random(random.Random(seed), stickiness=rnd.choice([0.0, 0.4, 0.8])))))
+    # systematic part: depth-first over the schedules with at most 2 preemptions
+    if len(sc['clients']) > 1 or sc.get('shutdown') or any((cl.get('gen') or (0, 0))[1] for cl in sc['clients']):
+      budget = 25 if chk.tier == 'quick' else 400
+      for o, choices in qcheck.explore(None, bound=2, max_runs=budget, rnd=rnd, run=lambda pol, sc=sc: prefetch.run_scenario(sc, pol)):
+        runs.append((sc, 'dfs', o))
+  chk.coverage['executions'] = len(runs)
+  for sc, seed, o in runs:
       chk.replayed()
       two = len(sc['clients']) > 1
       kind = 'two-clients' if two else ('shutdown' if sc.get('shutdown') else 'one-client')
